@@ -110,52 +110,63 @@ func init() {
 // quoted qualifer (i.e. /name="value").
 func RegisterQuotedQualifier(names ...string) {
 	QuotedQualifierNames = append(QuotedQualifierNames, names...)
-	sort.Strings(QuotedQualifierNames)
 }
 
 // RegisterLiteralQualifier registers the given qualifier names as being a
 // literal qualifier (i.e. /name=value).
 func RegisterLiteralQualifier(names ...string) {
 	LiteralQualifierNames = append(LiteralQualifierNames, names...)
-	sort.Strings(LiteralQualifierNames)
 }
 
 // RegisterToggleQualifier registers the given qualifier names as being a
 // toggle qualifier (i.e. /name).
 func RegisterToggleQualifier(names ...string) {
 	ToggleQualifierNames = append(ToggleQualifierNames, names...)
-	sort.Strings(ToggleQualifierNames)
 }
 
-func searchString(s string, ss []string) bool {
-	if len(ss) == 0 {
-		return false
-	}
-	n := len(ss) / 2
-	l, m, r := ss[:n], ss[n], ss[n+1:]
-	switch {
-	case s < m:
-		return searchString(s, l)
-	case s > m:
-		return searchString(s, r)
-	default:
-		return true
-	}
+// qualifierNameSet answers whether a name is in one of the registration
+// lists. The reader registers every qualifier name it does not know yet, one
+// at a time: the lists used to be sorted again after each of them and searched
+// by bisection, so that a feature with n new names cost n sorts. The names are
+// now looked up in a set that follows its list: names appended to the list
+// are added, and a list that was replaced or shortened is read again.
+type qualifierNameSet struct {
+	names map[string]struct{}
+	seen  int
+	first *string
 }
+
+func (set *qualifierNameSet) has(name string, list []string) bool {
+	var first *string
+	if len(list) > 0 {
+		first = &list[0]
+	}
+	if set.names == nil || len(list) < set.seen || (set.seen > 0 && first != set.first) {
+		set.names, set.seen = make(map[string]struct{}, len(list)), 0
+	}
+	for ; set.seen < len(list); set.seen++ {
+		set.names[list[set.seen]] = struct{}{}
+	}
+	set.first = first
+	_, ok := set.names[name]
+	return ok
+}
+
+var quotedQualifierSet, literalQualifierSet, toggleQualifierSet qualifierNameSet
 
 // IsQuotedQualifier tests if the given qualifier name is a quoted qualifier.
 func IsQuotedQualifier(name string) bool {
-	return searchString(name, QuotedQualifierNames)
+	return quotedQualifierSet.has(name, QuotedQualifierNames)
 }
 
 // IsLiteralQualifier tests if the given qualifier name is a literal qualifier.
 func IsLiteralQualifier(name string) bool {
-	return searchString(name, LiteralQualifierNames)
+	return literalQualifierSet.has(name, LiteralQualifierNames)
 }
 
 // IsToggleQualifier tests if the given qualifier name is a toggle qualifier.
 func IsToggleQualifier(name string) bool {
-	return searchString(name, ToggleQualifierNames)
+	return toggleQualifierSet.has(name, ToggleQualifierNames)
 }
 
 // QualifierType represents the type of qualifier.
@@ -467,6 +478,26 @@ func featureKeylineParser(prefix string, depth int) pars.Parser {
 }
 
 // INSDCTableParser attempts to match an INSDC feature table.
+// qualifierProps gathers the qualifiers of one feature: the values of a
+// repeated name are collected under its first occurrence. The position of
+// every name is kept in a map, so that a feature with many different
+// qualifier names is read in time proportional to their number (Props.Add
+// searches the whole list for every qualifier).
+func qualifierProps(children []pars.Result) gts.Props {
+	props := gts.Props{}
+	index := make(map[string]int)
+	for _, child := range children {
+		name, value := child.Value.(QualifierIO).Unpack()
+		if i, ok := index[name]; ok {
+			props[i] = append(props[i], value)
+			continue
+		}
+		index[name] = len(props)
+		props = append(props, []string{name, value})
+	}
+	return props
+}
+
 func INSDCTableParser(prefix string) pars.Parser {
 	firstParser := pars.Seq(
 		prefix, pars.Spaces,
@@ -498,16 +529,7 @@ func INSDCTableParser(prefix string) pars.Parser {
 		// Does not return error by definition.
 		qualifiersParser(state, result)
 
-		props := gts.Props{}
-		order := make(map[string]int)
-
-		for _, child := range result.Children {
-			name, value := child.Value.(QualifierIO).Unpack()
-			props.Add(name, value)
-			if _, ok := order[name]; name != "translation" && !ok {
-				order[name] = len(order)
-			}
-		}
+		props := qualifierProps(result.Children)
 
 		ff := []gts.Feature{gts.NewFeature(key, loc, props)}
 
@@ -518,16 +540,7 @@ func INSDCTableParser(prefix string) pars.Parser {
 			// Does not return error by definition.
 			qualifiersParser(state, result)
 
-			props := gts.Props{}
-			order := make(map[string]int)
-
-			for _, child := range result.Children {
-				name, value := child.Value.(QualifierIO).Unpack()
-				props.Add(name, value)
-				if _, ok := order[name]; name != "translation" && !ok {
-					order[name] = len(order)
-				}
-			}
+			props := qualifierProps(result.Children)
 
 			ff = append(ff, gts.NewFeature(key, loc, props))
 		}
